@@ -13,7 +13,7 @@ from vlib import miri
 
 MODULE = "TriompheModel.Props.C02"
 
-QUICK = ["clone_read_drop_2t", "clone_read_drop_3t", "thin_offset_union_2t"]
+QUICK = ["clone_read_drop_2t", "thin_offset_union_2t", "try_unwrap_vs_drop"]
 ASSUME = [
     "M4 Consistent: the RC11/C++20 fragment for one location whose writes are all RMWs (coherence, release sequences in index form)",
     "M4 Protocol: safe-Rust ownership discipline (accesses through a handle lie between its birth and its release; a clone's source is alive during clone) is assumed, not derived from rustc",
@@ -24,17 +24,18 @@ ASSUME = [
 def facts_summary(facts):
     a = facts.get("atomics", {})
     return {k: a.get(k) for k in ("cloneOrd", "decOrd", "decGuard", "fence", "dropSkeleton", "unknownWrites")} | {
-        "sites": len(a.get("sites", [])), "funnels": a.get("funnels")}
+        "sites": len(a.get("sites", [])), "funnels": a.get("funnels"),
+        "consuming_gates": [g for g in a.get("gates", []) if g.get("name") in ("Arc::try_unique", "Arc::try_unwrap", "Arc::unwrap_or_clone", "UniqueArc::try_from")]}
 
 
 def run(ctx):
     ctx.assumptions = ASSUME
     facts = common.regen_facts(ctx)
     ctx.coverage["generated_facts"] = facts_summary(facts)
-    ok, out = common.lean_obligations(ctx, MODULE)
+    ok, out = common.lean_obligations(ctx, MODULE, ["TriompheModel.Props.Gates", "TriompheModel.WM.Consume"])
 
     # supporting validation + failing-input search: Miri litmus programs on the working tree
-    progs = QUICK if not ctx.thorough() else miri.programs_for("C02")
+    progs = QUICK if not ctx.thorough() else (miri.programs_for("C02") + ["try_unwrap_vs_drop", "racing_try_unwrap_2t", "unwrap_or_clone_vs_drop", "try_unique_vs_drop"])
     seeds = miri.seeds(ctx, 2 if not ctx.thorough() else 24)
     res = miri.run_suite(ctx, progs, seeds)
     ctx.coverage.update(miri.coverage(res))
@@ -50,7 +51,7 @@ def run(ctx):
         body.append("")
         if not bad and not ctx.thorough():
             # widen the search before giving up
-            more = miri.run_suite(ctx, miri.programs_for("C02"), miri.seeds(ctx, 16))
+            more = miri.run_suite(ctx, (miri.programs_for("C02") + ["try_unwrap_vs_drop", "racing_try_unwrap_2t", "unwrap_or_clone_vs_drop", "try_unique_vs_drop"]), miri.seeds(ctx, 16))
             bad = miri.failing(more)
             ctx.coverage["search_runs"] = len(more)
         if bad:
